@@ -865,6 +865,20 @@ def gen_many_voices():
     return g
 
 
+def gen_voice_chains():
+    """three or four parts with every combination of voice counts from {1, 2, 4, 5, 6} (one staff each): the
+    offsets of later parts must account for every earlier part, also after a part with more than 4 voices"""
+    def g():
+        counts = (1, 2, 4, 5, 6)
+        combos = list(itertools.product(counts, repeat=3)) + [(6, 3, 2, 1), (5, 5, 1, 1), (1, 6, 4, 1), (4, 4, 4, 4)]
+        for mode in ("auto", "voice"):
+            for ks in combos:
+                ds = (2, 3, 1, 4)
+                parts = [vs_part(i, ds[i], [(v + 1, 1) for v in range(k)]) for i, k in enumerate(ks)]
+                yield mk("list", mode, parts, "chain:%s" % "-".join(map(str, ks)))
+    return g
+
+
 def gen_noteless():
     """one part without any note: empty, rest only, direction only, structure only"""
     def g():
@@ -1012,6 +1026,8 @@ def spaces(tier, seed):
     sp.append(Space("many-voices", gen_many_voices(), True,
                     "a part with k voices (auto: k in 3..6; voice, staff: k = 5) on one staff / no staff / two staves / four voices per "
                     "staff, next to parts with 1..2 voices, in first, second or middle position"))
+    sp.append(Space("voice-chains", gen_voice_chains(), True,
+                    "3 parts x every combination of voice counts {1,2,4,5,6}^3 (+ four 4-part chains) x modes auto, voice"))
     sp.append(Space("noteless-part", gen_noteless(), True,
                     "one part without notes (empty, rest, rest without staff, words, structure only) at every position of 2 and 3 parts "
                     "x 3 modes, divisions triple cycled over 3"))
